@@ -468,7 +468,7 @@ def eval_case(ctx, case, root):
 
 def run(ctx, driver):
     r = ctx.rng
-    n = ctx.scale(1000, 8000)
+    n = ctx.scale(1000, 25000)
     root = tempfile.mkdtemp(prefix="pds_c17_", dir="/tmp")
     todo = []
     try:
